@@ -304,7 +304,21 @@ def rule_R9(src, stats):
     return _replace_spans(src, spans)
 
 
-RULES = {"R1": rule_R1, "R2": rule_R2, "R3": rule_R3, "R4": rule_R4, "R5": rule_R5,
+def rule_R11(src, stats):
+    """first statement `if !is_jsonb(X) { TEXT BRANCH }` -> `if !is_jsonb(X) { vx_unreachable() }`:
+    the JSON-text branch is dropped from the verified text; sound only together with the precondition
+    `requires spec_is_jsonb(X@)`, under which Verus must prove the branch unreachable (vx_unreachable requires false)"""
+    code = _toks(src)
+    for i in range(len(code) - 6):
+        if (code[i].text == "if" and code[i + 1].text == "!" and code[i + 2].text == "is_jsonb" and code[i + 3].text == "("
+                and code[i + 5].text == ")" and code[i + 6].text == "{"):
+            e = match_close(code, i + 6)
+            stats["R11"] = stats.get("R11", 0) + 1
+            return _replace_spans(src, [(code[i + 6].end, code[e].start, " vx_unreachable() ")])
+    return src
+
+
+RULES = {"R11": rule_R11, "R1": rule_R1, "R2": rule_R2, "R3": rule_R3, "R4": rule_R4, "R5": rule_R5,
          "R6": rule_R6, "R7": rule_R7, "R8": rule_R8, "R9": rule_R9}
 
 RULE_DOC = {k: (v.__doc__ or "").strip() for k, v in RULES.items()}
@@ -565,7 +579,7 @@ def splice_fn(fs, stats, canary=False):
 def build(unit_path, prelude_paths, canary=False):
     """returns (generated_text, linemap, info) ; linemap[i] (0-based line) = dict(origin=..., fn=..., what=...)"""
     unit = parse_unit(unit_path)
-    stats = {k: 0 for k in ["R0", "R1", "R2", "R3", "R4", "R5", "R6", "R7", "R8", "R9", "R10"]}
+    stats = {k: 0 for k in ["R0", "R1", "R2", "R3", "R4", "R5", "R6", "R7", "R8", "R9", "R10", "R11"]}
     out = []       # (text, meta)
     fns = []
 
